@@ -164,6 +164,46 @@ def phase(case, ctx, rng, st, am, label, held, last):
     p1 = ctx.lib("prob_h_given_v(1d)", rbm.prob_h_given_v, v1.clone())
     if tuple(p1.shape) != (nh,) or np.any(np.abs(p1.numpy() - ref_ph[N - 1]) > 1e-12):
         ctx.violation("conditional-1d", "prob_h_given_v 1-D form disagrees", tags=tags)
+    # the public one-layer samplers called directly, without and with a caller-supplied buffer: 0/1 draws whose unit-wise
+    # frequencies over M copies of one configuration follow the exact conditional (Hoeffding, union over units and calls;
+    # total false-alarm probability below 1e-9 per run)
+    Ms = 3000
+    eps_s = math.sqrt(math.log(2 * 1e7 / 1e-9) / (2 * Ms))  # union over at most 1e7 unit frequencies per run
+    iv = int(rng.integers(0, N))
+    vb = torch.tensor(np.repeat(V[iv:iv + 1], Ms, axis=0), dtype=torch.double)
+    jobs = [("sample_h_given_v", (vb,), ref_ph[iv], nh)]
+    if mixed:
+        jobs.append(("sample_a_given_v", (vb,), ref_pa[iv], na))
+        ih, ia = int(rng.integers(0, 2 ** nh)), int(rng.integers(0, 2 ** na))
+        hb = torch.tensor(np.repeat(R.space(nh)[ih:ih + 1], Ms, axis=0), dtype=torch.double)
+        ab = torch.tensor(np.repeat(R.space(na)[ia:ia + 1], Ms, axis=0), dtype=torch.double)
+        jobs.append(("sample_v_given_ha", (hb, ab), R.pur_cond_v_given_ha(am, R.space(nh)[ih:ih + 1], R.space(na)[ia:ia + 1])[0], nv))
+    else:
+        ih = int(rng.integers(0, 2 ** nh))
+        hb = torch.tensor(np.repeat(R.space(nh)[ih:ih + 1], Ms, axis=0), dtype=torch.double)
+        jobs.append(("sample_v_given_h", (hb,), R.rbm_cond_v_given_h(am, R.space(nh)[ih:ih + 1])[0], nv))
+    for fn_, args_, refp, width in jobs:
+        for with_out in (False, True):
+            f_ = getattr(rbm, fn_, None)
+            if f_ is None:
+                ctx.count("direct_samplers_unavailable")
+                continue
+            kw_ = {"out": torch.full((Ms, width), 7.0, dtype=torch.double)} if with_out else {}
+            d_ = ctx.lib(f"{fn_}({'out=buffer' if with_out else 'no buffer'})", f_, *[a_.clone() for a_ in args_], tags=dict(tags, fn=fn_), **kw_)
+            ctx.count("direct_sampler_calls")
+            dn = d_.numpy()
+            if dn.shape != (Ms, width) or not np.all((dn == 0) | (dn == 1)):
+                ctx.violation("sampler-output", f"{fn_} returned shape {dn.shape} / values outside {{0,1}}", tags=dict(tags, fn=fn_))
+                continue
+            if with_out and not torch.equal(kw_["out"], d_):
+                ctx.violation("sampler-output", f"{fn_}(out=buffer) did not leave the draw in the buffer", tags=dict(tags, fn=fn_))
+            fr = dn.mean(axis=0)
+            refp = np.asarray(refp).reshape(-1)
+            if np.any(np.abs(fr - refp) > eps_s):
+                u_ = int(np.argmax(np.abs(fr - refp)))
+                ctx.violation("sampler-vs-conditional", f"{fn_}({'out=buffer' if with_out else 'no buffer'}): unit {u_} is on in {fr[u_]:.3f} of {Ms} "
+                              f"draws, its exact conditional is {refp[u_]:.3f} (Hoeffding eps {eps_s:.3f})", tags=dict(tags, fn=fn_, buffer=with_out),
+                              witness=wit)
     # assemble T from the library's conditionals
     Hs, As = lc["lat"]
     if mixed:
